@@ -1041,6 +1041,17 @@ func (bi *bvInterp) call(p *bvPath, x *ast.CallExpr) *bvVal {
 				if st := structOf(bi.info.TypeOf(x.Args[0])); st != nil {
 					return bi.zeroStruct(st)
 				}
+			case "make":
+				if len(x.Args) >= 2 && isByteSlice(bi.info.TypeOf(x.Args[0])) {
+					n := bi.expr(p, x.Args[1])
+					if n.isInt() {
+						if l := p.Ctx.linOf(n.BV); l != nil {
+							b := &bvBuf{Name: "made", Cells: map[string]BV{}, Len: l, Zero: true}
+							return &bvVal{View: &bvView{Buf: b, Base: Const(0)}}
+						}
+					}
+				}
+				return &bvVal{Opaque: "make"}
 			case "recover", "panic", "print", "println":
 				return &bvVal{Opaque: b.Name()}
 			}
